@@ -5,7 +5,7 @@
 (* The harness logs, per call: event, arguments, outcome (ok/err/panic),   *)
 (* result handle, the projected post-state, the position index and what    *)
 (* the public API answers.  No expected value is computed outside TLC.     *)
-EXTENDS StamApi, StamRead, StamSerial, StamValidation, StamWebAnno, Json, IOUtils
+EXTENDS StamApi, StamRead, StamSerial, StamAll, StamWebAnno, Json, IOUtils
 
 Rec == ndJsonDeserialize(IOEnv.TRACE)
 
@@ -69,7 +69,7 @@ Resync(r, logged) ==
     ELSE st' = st /\ skip' = TRUE
 
 Mutating(r) ==
-    LET exp    == ApplyV(st, r.ev, r.a)
+    LET exp    == ApplyAny(st, r.ev, r.a)
         logged == CanonState(r.post)
         okOutcome == IF exp.outcome = "either" THEN r.outcome \in {"ok", "err"} ELSE r.outcome = exp.outcome
         okState == r.projok /\ logged = exp.st
@@ -77,7 +77,7 @@ Mutating(r) ==
         okOrder == ~r.projok \/ TextualOrderOK(r.post)
         okPos   == ~okState \/ PosOK(exp.st, r.pos)
         okApi   == ~okState \/ ~r.api.has \/ ApiOK(exp.st, r.api)
-    IN IF ~InDomain(st, r.ev, r.a)
+    IN IF ~InDomainAny(st, r.ev, r.a)
        THEN /\ Resync(r, logged) /\ UNCHANGED bad
             /\ PrintT(<<"OUTOFDOMAIN", l>>)
        ELSE IF okOutcome /\ okState /\ okRes /\ okOrder /\ okPos /\ okApi
@@ -140,7 +140,7 @@ Step ==
        IN IF r.ev = "Reset" THEN st' = InitState /\ skip' = FALSE /\ UNCHANGED bad
           ELSE IF skip THEN UNCHANGED <<st, skip, bad>> /\ PrintT(<<"SKIPPED", l>>)
           ELSE IF r.ev \in RoundTripEvents THEN RoundTrip(r)
-          ELSE IF r.ev \in MutatingEventsV THEN Mutating(r)
+          ELSE IF r.ev \in MutatingEventsAll THEN Mutating(r)
           ELSE ReadOnly(r)
 
 TraceInit == l = 1 /\ st = InitState /\ skip = FALSE /\ bad = 0
